@@ -21,16 +21,28 @@ Proof.
 Qed.
 
 (* ---- batcher_concat ---- *)
+Lemma added_cons : forall a (acts : list (baction T)),
+  added_of (a :: acts) = match a with BAdd x => [x] | _ => [] end ++ added_of acts.
+Proof. reflexivity. Qed.
+Lemma flushed_cons : forall e (evs : list (bevent T)),
+  flushed_of (e :: evs) = match e with EFlushed _ l => [l] | _ => [] end ++ flushed_of evs.
+Proof. reflexivity. Qed.
+Lemma b_run_cons : forall p a acts s,
+  b_run p (a :: acts) s =
+  (fst (b_step p a s) :: fst (b_run p acts (snd (b_step p a s))), snd (b_run p acts (snd (b_step p a s)))).
+Proof. reflexivity. Qed.
+
 Lemma b_run_concat : forall p acts s,
   concat (flushed_of (fst (b_run p acts s))) ++ batch (snd (b_run p acts s)) = batch s ++ added_of acts.
 Proof.
   intros p acts. induction acts as [|a acts IH]; intros s.
   - cbn. now rewrite app_nil_r.
-  - cbn [b_run fst snd]. destruct a as [x| |t|]; cbn [b_step fst snd flushed_of added_of flat_map app concat].
+  - rewrite b_run_cons, added_cons. cbn [fst snd]. rewrite flushed_cons.
+    destruct a as [x| |t|]; cbn [b_step fst snd app].
     + rewrite IH. unfold b_add; cbn [batch]. now rewrite <- app_assoc.
-    + apply IH.
-    + fold (@flushed_of T). rewrite <- app_assoc, IH, app_assoc, b_flush_split. reflexivity.
-    + apply IH.
+    + rewrite IH. reflexivity.
+    + cbn [concat]. rewrite <- app_assoc, IH, app_assoc, b_flush_split. reflexivity.
+    + rewrite IH. reflexivity.
 Qed.
 
 Theorem batcher_concat_proof : forall p (acts : list (baction T)),
@@ -82,8 +94,8 @@ Qed.
 
 Lemma binv_run : forall p acts s, binv s -> binv (snd (b_run p acts s)).
 Proof.
-  intros p acts. induction acts as [|a acts IH]; intros s H; cbn [b_run snd]; [assumption|].
-  apply IH. now apply binv_step.
+  intros p acts. induction acts as [|a acts IH]; intros s H; [assumption|].
+  rewrite b_run_cons. cbn [snd]. apply IH. now apply binv_step.
 Qed.
 
 (* tokens never decrease, and grow exactly when a non-empty batch is handed out *)
@@ -91,11 +103,12 @@ Lemma b_run_token : forall p acts s,
   token s <= token (snd (b_run p acts s)) /\
   (token (snd (b_run p acts s)) = token s -> concat (flushed_of (fst (b_run p acts s))) = []).
 Proof.
-  intros p acts. induction acts as [|a acts IH]; intros s; cbn [b_run fst snd].
+  intros p acts. induction acts as [|a acts IH]; intros s.
   - cbn. split; [lia|reflexivity].
-  - destruct a as [x| |t|]; cbn [b_step fst snd flushed_of flat_map app concat]; try apply IH.
+  - rewrite b_run_cons. cbn [fst snd]. rewrite flushed_cons.
+    destruct a as [x| |t|]; cbn [b_step fst snd app]; try apply IH.
     + destruct (IH (b_add p x s)) as [H1 H2]. unfold b_add in *; cbn [token] in *. split; assumption.
-    + fold (@flushed_of T). destruct (IH (snd (b_flush t s))) as [H1 H2].
+    + destruct (IH (snd (b_flush t s))) as [H1 H2].
       unfold b_flush in *.
       destruct (is_nil (batch s) || (negb (t =? current_batch) && negb (token s =? t))); cbn [fst snd token] in *.
       * split; [assumption|]. intros E. cbn. now apply H2.
